@@ -25,7 +25,7 @@ func register(p *Prop) { p.Assumptions = append(p.Assumptions, common...); Props
 func init() {
 	register(&Prop{
 		ID:    "C01",
-		Rules: []func(*core.Ctx){ROp, RStk, RSib, RMask},
+		Rules: []func(*core.Ctx){ROp, RStk, RBracket, RSib, RMask},
 		Explanation: "Static analysis of the bytecode contract between syntax/writer.go (emit sites), syntax/code.go (opcodeSize, opcodeBacktracks, constant blocks) and runner.go (executeDefault's switch): " +
 			"R-OP1 handler/size exists for every emitted opcode; R-OP2 operand/advance constants agree with opcodeSize; R-OP3 backtracking frame shape (push arity vs pop arity vs existence of Back/Back2 clauses, path-enumerated per clause on go/cfg); " +
 			"R-OP4 numeric identity NodeType==InstOp and family strides used by retyping arithmetic; R-OP5 debug tables; R-STK grouping-stack balance of every emitFragment bracket pair. " +
